@@ -263,7 +263,21 @@ def board_trace(job) -> List[Dict[str, Any]]:
     dummy = (decl + 2) % 4
     n_total = sum(len(h) for h in deal)
     k = 0
+    # the board may be carried on by copies of the objects (a checkpoint that is
+    # restored, objects sent to another process): every 3rd board continues on
+    # deep copies or pickle round trips from some point on
+    hsum = sum(map(ord, str(tid))) + trump + 2 * decl
+    swap_at = (hsum // 3) % max(1, n_total) if hsum % 3 == 0 else -1
     while k < n_total:
+        if k == swap_at:
+            import copy
+            import pickle
+            for o_ in [man, plain] + obs:
+                try:
+                    o_.obj = copy.deepcopy(o_.obj) if hsum % 2 else pickle.loads(pickle.dumps(o_.obj))
+                except Exception:  # noqa
+                    evs.append({'tid': tid, 'ev': 'play', 'o': o_.o, 'seat': 0, 'card': 0,
+                                'via': 'by_player', 'res': 'copy-failed', 'same': True})
         mp = man.proj()
         active = mp['active']
         if not hands[active]:
